@@ -737,7 +737,7 @@ pub fn check(prop: &str, tier_name: &str) -> i32 {
             "std resolves `getrandom` to the harness's definition (checked: probe.getrandom_calls > 0 means keys came from the simulator)",
             "the builder is the repository's simple_build; downstream builders (cc2600/cc7800) are outside this repository",
             "sampling, not enumeration, over hash keys, histories, schedules and fault combinations",
-            "environment held fixed: cwd (empty directory), file-system content, log level Info, environment variables, real clock never read by the code under test"
+            "environment: file-system content held fixed; working directory (one of two empty directories), 24 environment variables (locale, time zone, home, user, terminal, TMPDIR, PWD, SOURCE_DATE_EPOCH, compiler-ish include/flags variables, RUST_LOG) and the process log level are world dimensions; any other variable is held fixed; real clock never read by the code under test"
         ],
         "wall_s": wall,
         "violations": if exit == 0 { 0 } else { unknown_keys as i64 }
